@@ -190,17 +190,22 @@ func (b *Built) analyze() error {
 		return err
 	}
 	b.An = an
-	b.helperT = map[spec.TypeID]types.Type{}
-	for i := range b.Case.Types {
-		t := &b.Case.Types[i]
+	b.helperT = helperTypes(b.Case, an)
+	return nil
+}
+
+func helperTypes(cs *spec.Case, an *band.Analysis) map[spec.TypeID]types.Type {
+	out := map[spec.TypeID]types.Type{}
+	for i := range cs.Types {
+		t := &cs.Types[i]
 		if t.Kind == "none" {
 			continue
 		}
 		if ht := an.HelperResult(fmt.Sprintf("mk_%d", int(t.ID))); ht != nil {
-			b.helperT[t.ID] = ht
+			out[t.ID] = ht
 		}
 	}
-	return nil
+	return out
 }
 
 // typeID maps a go/types type of the checked package back to the spec type.
